@@ -18,6 +18,8 @@ BUILDER = "ipp::client::IppClientBuilder::<T>::"
 
 
 def cfg_field(t, name):
+    while is_call(t) and t[1].split("::")[-1] in ("iter", "into_iter", "as_ref", "clone") and len(t[2]) == 1:
+        t = t[2][0]          # `&self.0.headers`, `self.0.headers.iter()`
     return isinstance(t, tuple) and t[0] == "field" and t[2] == name and t[1][0] == "field" and t[1][2] == "0" and t[1][1] == ("var", "self")
 
 
@@ -139,8 +141,13 @@ def check_send(run, F, fn, kind):
         if kind == "async":
             gate = None
             for c in p.conds:
-                if c[0] == "if" and is_call(c[1], "http::StatusCode::is_success") and is_call(c[1][2][0], "reqwest::Response::status"):
-                    gate = c[2]
+                if c[0] != "if":
+                    continue
+                ct, cpol = c[1], c[2]
+                while isinstance(ct, tuple) and ct[0] == "un" and ct[1] == "Not":
+                    ct, cpol = ct[2], not cpol          # `if !status.is_success() { return Err(..) }`
+                if is_call(ct, "http::StatusCode::is_success") and is_call(ct[2][0], "reqwest::Response::status"):
+                    gate = cpol
             if parses:
                 n_parse_paths += 1
                 run.ob("R-HTTPSHAPE", "%s: response parsed only after a success status" % short, gate is True,
